@@ -107,7 +107,7 @@ static void failinject(cJSON *t, int fmt, int cfg)
 static int do_case(const jv *line)
 {
     const jv *tb = jv_at(line, 3); int fmt = (int)jv_int(jv_at(line, 2)); long thr = jv_int(jv_at(line, 4));
-    static char expect[1 << 22]; size_t L = tb->n, k; cJSON *t; int cfg; char *ref_text = NULL; uint64_t h0;
+    static char expect[1 << 22]; size_t L = tb->n, k; cJSON *t; int cfg; char *ref_text = NULL; uint64_t h0; int nullvar = 0;
     if (L + 1 > sizeof(expect)) return -1;
     for (k = 0; k < L; k++) expect[k] = (char)jv_int(tb->e[k]);
     expect[L] = 0;
@@ -125,6 +125,9 @@ static int do_case(const jv *line)
         judge_text(fmt ? "cJSON_Print" : "cJSON_PrintUnformatted", t, fmt, s, expect, cfg, line);
         if (s && !ref_text) ref_text = strdup(s);
         if (s && ref_text && strcmp(s, ref_text)) viol("C04", "printed text depends on the allocator configuration");
+        { char *s3; errno = ERANGE; s3 = fmt ? cJSON_Print(t) : cJSON_PrintUnformatted(t); errno = 0;      /* whatever an earlier library or libc call left in errno changes nothing */
+          if (s && (!s3 || strcmp(s, s3))) viol("C04 C05", "the printed text depends on the value errno had before the call (ERANGE left by an earlier conversion): %.80s vs %.80s", s, s3 ? s3 : "(null)");
+          cJSON_free(s3); }
         cJSON_free(s);
         for (pre = 0; pre <= (long)L + 3; pre += (L > 20000 && pre > 300 && pre < (long)L - 4) ? ((pre > 65000 && pre < 66000) ? 97 : 4099) : (L > 200 && pre > 4 && pre < (long)L - 4) ? 7 : 1) {
             vd_tick();
@@ -179,6 +182,10 @@ static int do_case(const jv *line)
         if (u && strcmp(u, st)) viol("C05", "formatted text minus whitespace differs from unformatted text: %s vs %s", st, u);
         cJSON_free(u); free(st);
     }
+    /* an empty string held through a NULL text pointer (cJSON_CreateStringReference(NULL)) and a member without a name (cJSON_ReplaceItemViaPointer
+     * puts a nameless item into an object) print as "" like their empty counterparts: the same sweep is repeated on that concretisation */
+    nullvar = 0;
+again_nullvar:
     /* caller buffer of every size (C09) */
     if (ref_text) {
         long n, prev_ok = 0; size_t RL = strlen(ref_text); int tv;
@@ -202,6 +209,20 @@ static int do_case(const jv *line)
             }
             if (tv == 0 && (r != 0) != (n >= thr)) VD.drift++;
             prev_ok = r;
+        }
+    }
+    if (ref_text && !nullvar && L < 400) {
+        cJSON *stack[256]; int sp = 0, changed = 0; cJSON *c;
+        stack[sp++] = t;
+        while (sp) { cJSON *x = stack[--sp];
+            if ((x->type & 0xFF) == cJSON_String && x->valuestring && !x->valuestring[0] && !(x->type & cJSON_IsReference)) { al_free(x->valuestring); x->valuestring = NULL; x->type |= cJSON_IsReference; changed = 1; }
+            if (x->string && !x->string[0] && !(x->type & cJSON_StringIsConst)) { al_free(x->string); x->string = NULL; changed = 1; }
+            for (c = x->child; c && sp < 256; c = c->next) stack[sp++] = c; }
+        if (changed) {
+            char *s4 = fmt ? cJSON_Print(t) : cJSON_PrintUnformatted(t), *s5 = cJSON_PrintBuffered(t, 1, fmt);
+            if (!s4 || strcmp(s4, ref_text) || !s5 || strcmp(s5, ref_text)) viol("C04 C05", "with empty strings / names held as NULL pointers the printed text differs: %.80s", s4 ? s4 : "(null)");
+            cJSON_free(s4); cJSON_free(s5);
+            nullvar = 1; goto again_nullvar;
         }
     }
     /* every member printed where it stands (siblings, key): the text of that member alone (C05, C04) */
@@ -308,6 +329,32 @@ static int do_table(const jv *line, int full)
                 }
             }
         }
+    /* every three-byte sequence with a lead byte E0..EF next to one more byte (in front of it and behind it): escaping one byte must not
+     * change how its neighbours are written (quick: the neighbours that need escaping, and one that does not) */
+    { unsigned c2, c3, nb; int pos; char v5[8];
+      item->valuestring = v5;
+      for (b1 = 0xE0; b1 <= 0xEF; b1++) for (c2 = 0x80; c2 <= 0xBF; c2++) { vd_tick(); for (c3 = 0x80; c3 <= 0xBF; c3++) for (nb = 1; nb <= 255; nb++) {
+          if (!full && !(nb < 32 || nb == 34 || nb == 92 || nb == 97 || nb == 0xE2)) continue;
+          for (pos = 0; pos < 2; pos++) {
+              size_t o = 0; int r; unsigned seq[4]; int q;
+              if (pos == 0) { seq[0] = nb; seq[1] = b1; seq[2] = c2; seq[3] = c3; } else { seq[0] = b1; seq[1] = c2; seq[2] = c3; seq[3] = nb; }
+              exp[o++] = '"';
+              for (q = 0; q < 4; q++) { v5[q] = (char)seq[q]; memcpy(exp + o, E[seq[q]], EL[seq[q]]); o += EL[seq[q]]; }
+              v5[4] = 0; exp[o++] = '"'; exp[o] = 0;
+              memset(out, 0x55, sizeof(out));
+              r = cJSON_PrintPreallocated(item, out, (int)o + 6, 0); table_strings++;
+              if (!r || strcmp(out, exp)) {
+                  char *s = cJSON_PrintUnformatted(item); cJSON *back = s ? cJSON_Parse(s) : NULL;
+                  drift_texts++; VD.drift++;
+                  if (!s) viol("C04 C05", "string with bytes %02x %02x %02x %02x cannot be printed", seq[0], seq[1], seq[2], seq[3]);
+                  else if (!back || !cJSON_IsString(back) || strcmp(back->valuestring, v5)) viol("C04 C05", "string with bytes %02x %02x %02x %02x does not survive print and parse (printed as %.40s)", seq[0], seq[1], seq[2], seq[3], s);
+                  if (s && r && strcmp(s, out)) viol("C05", "cJSON_PrintPreallocated and cJSON_PrintUnformatted give different bytes for the string %02x %02x %02x %02x", seq[0], seq[1], seq[2], seq[3]);
+                  if (s && !r) viol("C09", "cJSON_PrintPreallocated fails with text length + 6 bytes for the string %02x %02x %02x %02x", seq[0], seq[1], seq[2], seq[3]);
+                  cJSON_free(s); cJSON_Delete(back);
+                  if (VD.violations > 20) { item->valuestring = val; goto done; }
+              }
+          } } }
+      item->valuestring = val; }
 done:
     VD_END();
     cJSON_Delete(item);
@@ -335,6 +382,7 @@ static void scale_one(cJSON *t, const char *what)
         if (cfg == 0) use_custom_hooks(); else use_default_hooks();
         for (fmt = 0; fmt < 2; fmt++) {
             char *s, *b; cJSON *back; size_t L;
+            vd_tick();
             if (!VD_TRY()) { al_in_call = 0; viol("*", "printing %s (allocator config %d): memory fault", what, cfg); use_custom_hooks(); return; }
             al_in_call = 1; al_window(0);
             s = fmt ? cJSON_Print(t) : cJSON_PrintUnformatted(t);
